@@ -79,7 +79,9 @@ pub fn run<S: Scheme>(scn: &Scenario, log: &EventLog) -> RunResult {
         let verdict: Option<(String, bool, String)> = match f.kind.as_str() {
             "poly-too-large" => {
                 let d = sup + 1 + f.target; // supported+1, supported+2, ...
-                let spec = PolySpec { degree: d, ..base.clone() };
+                // oversized polynomials of different shapes: dense, x^k * q(x) (low-order zeros), sparse
+                let shape = match f.aux % 3 { 0 => Shape::Dense, 1 => Shape::LowZeros(1 + (f.param as usize) % d), _ => Shape::Sparse(1 + (f.param as usize) % 3) };
+                let spec = PolySpec { degree: d, shape, ..base.clone() };
                 let mut c2 = cfg.clone();
                 if fam == Family::Pst13 { c2.num_vars = cfg.num_vars; }
                 let p = lp::<S>(scn, &c2, &spec);
